@@ -22,7 +22,7 @@ ASSUMPTIONS = ["numerical content of the assemblers is abstracted to the list of
 FIELDS = ["QReg", "QSing", "FOrder", "FNcrit", "FDepth"]
 DEFAULTS = {"QReg": 4, "QSing": 4, "FOrder": 5, "FNcrit": 400, "FDepth": 4}
 VALUES = {"QReg": [1, 2, 3, 4, 5, 6], "QSing": [2, 3, 4, 5], "FOrder": [4, 5, 6], "FNcrit": [200, 400], "FDepth": [3, 4]}
-BOUNDARY = ["KDense", "KSparse", "KFmm"]
+BOUNDARY = ["KDense", "KSingular", "KSparse", "KFmm"]
 POTENTIAL = ["KPotential", "KFmmPotential"]
 
 
@@ -55,6 +55,41 @@ LEADS = [
     [["reset"], ["space", "P1"], ["op", "KFmmPotential", 0, {"QReg": 6}], ["eval", 0], ["set", 0, "QReg", 3],
      ["op", "KFmmPotential", 0, None], ["eval", 1]],
 ]
+
+
+def grid_histories():
+    """Deterministic sweep: every assembler kind x {explicit, global} parameter object x {before, after} a change of the
+    global (or of the explicit) object, for every parameter that kind can see; plus blocked operators, single precision and
+    the FMM backend parameters.  Values are chosen so that a wrong order is numerically visible (sparse / mass: order 1)."""
+    hs = []
+    see = {"KDense": ["QReg", "QSing"], "KSingular": ["QSing"], "KSparse": ["QReg"], "KPotential": ["QReg"],
+           "KFmm": ["QReg", "QSing"], "KFmmPotential": ["QReg"]}
+    val = {"QReg": (1, 6), "QSing": (2, 5)}
+    for kind, fields in see.items():
+        obs = "eval" if kind in POTENTIAL else "weak"
+        for f in fields:
+            a, b = val[f]
+            # explicit object, global changed before the first assembly; second observation after another change
+            hs.append([["reset"], ["space", "P1"], ["op", kind, 0, {f: a}], ["set", 0, f, b], [obs, 0],
+                       ["set", 0, f, a], [obs, 0]])
+            # global object, changed before the first assembly (late binding) and after it; then a second operator
+            hs.append([["reset"], ["space", "P1"], ["op", kind, 0, None], ["set", 0, f, a], [obs, 0], ["set", 0, f, b],
+                       [obs, 0], ["op", kind, 0, None], [obs, 1]])
+            # explicit object shared by two operators and mutated between their assemblies
+            hs.append([["reset"], ["space", "P1"], ["op", kind, 0, {f: a}], [obs, 0], ["set", 1, f, b],
+                       ["op", kind, 0, 1], [obs, 1], [obs, 0]])
+    # FMM backend parameters (in the cache key on the current tree): must follow the parameter object
+    hs.append([["reset"], ["space", "P1"], ["op", "KFmm", 0, None], ["weak", 0], ["iface", 0], ["set", 0, "FOrder", 6],
+               ["op", "KFmm", 0, None], ["weak", 1], ["iface", 1], ["set", 0, "FNcrit", 200], ["op", "KFmm", 0, None],
+               ["weak", 2], ["iface", 2]])
+    hs.append([["reset"], ["space", "P1"], ["op", "KFmm", 0, {"FOrder": 4, "FNcrit": 200}], ["weak", 0], ["iface", 0]])
+    # blocked operator: blocks bind when the blocked weak form is first requested
+    hs.append([["reset"], ["space", "P1"], ["op", "KDense", 0, {"QReg": 6}], ["op", "KSparse", 0, None],
+               ["blocked", [0, 1]], ["set", 0, "QReg", 1], ["weak", 2], ["set", 0, "QReg", 3], ["weak", 2], ["weak", 1]])
+    # single precision: same parameters, result within single-precision accuracy of the double one
+    hs.append([["reset"], ["space", "P1"], ["op", "KDense", 0, {"QReg": 3}, "single"], ["set", 0, "QReg", 5], ["weak", 0],
+               ["op", "KSparse", 0, None, "single"], ["weak", 1], ["op", "KPotential", 0, None, "single"], ["eval", 2]])
+    return hs
 
 
 def gen_history(rnd, length):
@@ -98,14 +133,22 @@ def annotate(h):
     """Ideal semantics: for every observation step the specification a fresh process has to compute."""
     pobjs = [dict(DEFAULTS)]
     spaces, ops, specs = [], [], {}
+
+    def bind(o):
+        if o["bound"] is None:
+            o["bound"] = dict(pobjs[o["pid"]])
+        return o["bound"]
     for si, st in enumerate(h):
         tag = st[0]
         if tag == "reset":
             pobjs[0] = dict(DEFAULTS)
         elif tag == "space":
             spaces.append(st[1])
+        elif tag == "blocked":
+            ops.append({"kind": "Blocked", "parts": list(st[1]), "space": ops[st[1][0]]["space"], "pid": 0, "bound": None,
+                        "single": False})
         elif tag == "op":
-            _, kind, sidx, par = st
+            kind, sidx, par = st[1], st[2], st[3]
             if par is None:
                 pid = 0
             elif isinstance(par, int):
@@ -115,15 +158,21 @@ def annotate(h):
                 v.update(par)
                 pobjs.append(v)
                 pid = len(pobjs) - 1
-            ops.append({"kind": kind, "space": sidx, "pid": pid,
+            ops.append({"kind": kind, "space": sidx, "pid": pid, "single": len(st) > 4 and st[4] == "single",
                         "bound": dict(pobjs[pid]) if kind in POTENTIAL else None, "explicit": pid != 0})
         elif tag == "set":
             pobjs[st[1]][st[2]] = st[3]
-        elif tag in ("weak", "strong", "eval"):
+        elif tag in ("weak", "strong", "eval", "iface"):
             o = ops[st[1]]
-            if o["bound"] is None:
-                o["bound"] = dict(pobjs[o["pid"]])
-            sp = {"kind": o["kind"], "space": spaces[o["space"]], "params": dict(o["bound"]), "what": tag}
+            if o["kind"] == "Blocked":
+                parts = []
+                for i in o["parts"]:
+                    parts.append({"kind": ops[i]["kind"], "space": spaces[ops[i]["space"]], "params": dict(bind(ops[i]))})
+                specs[si] = {"kind": "Blocked", "space": spaces[o["space"]], "params": {}, "what": "blocked", "parts": parts,
+                             "part_index": list(o["parts"])}
+                continue
+            sp = {"kind": o["kind"], "space": spaces[o["space"]], "params": dict(bind(o)), "what": tag,
+                  "single": o["single"]}
             if tag == "strong":
                 sp["mass_params"] = dict(pobjs[0])
             specs[si] = sp
@@ -141,6 +190,12 @@ def _params(v):
     return t
 
 
+def _model_index(h, si, i):
+    """Index of python operator i among the model's operators (blocked operators are not model objects)."""
+    ops_so_far = [x for x in h[:si] if x[0] in ("op", "blocked")]
+    return sum(1 for x in ops_so_far[:i] if x[0] == "op")
+
+
 def coq_history(h):
     """-> (list of Coq op terms, {python step index: number of Coq steps executed after it})"""
     out, after = [], {}
@@ -152,7 +207,7 @@ def coq_history(h):
         elif tag == "space":
             out.append("CreateSpace")
         elif tag == "op":
-            _, kind, sidx, par = st
+            kind, sidx, par = st[1], st[2], st[3]
             if par is None:
                 out.append("CreateOp %s %d None" % (kind, sidx))
             elif isinstance(par, int):
@@ -162,9 +217,15 @@ def coq_history(h):
         elif tag == "set":
             out.append("SetParam %d %s %d" % (st[1], st[2], st[3]))
         elif tag == "weak":
-            out.append("WeakForm %d" % st[1])
+            ops_so_far = [x for x in h[:si] if x[0] in ("op", "blocked")]
+            tgt = ops_so_far[st[1]]
+            for i in (tgt[1] if tgt[0] == "blocked" else [st[1]]):
+                out.append("WeakForm %d" % _model_index(h, si, i))
+        elif tag == "iface":
+            out.append("WeakForm %d" % _model_index(h, si, st[1]))
         elif tag == "strong":
-            out.append("StrongForm %d %d" % (st[1], [x for x in h[:si] if x[0] == "op"][st[1]][2]))
+            out.append("StrongForm %d %d" % (_model_index(h, si, st[1]),
+                                             [x for x in h[:si] if x[0] in ("op", "blocked")][st[1]][2]))
         elif tag == "clear":
             out.append("ClearFmmCache")
         elif tag == "mass":
@@ -173,7 +234,7 @@ def coq_history(h):
     return out, after
 
 
-def _close(a, b):
+def _close(a, b, tol=1e-9):
     if "exception" in a or "exception" in b:
         return a.get("exception") is not None and a.get("exception") == b.get("exception")
     va, vb = a["value"], b["value"]
@@ -182,12 +243,19 @@ def _close(a, b):
     xs = va["re"] + va.get("im", [0.0] * len(va["re"]))
     ys = vb["re"] + vb.get("im", [0.0] * len(vb["re"]))
     scale = max([1e-300] + [abs(y) for y in ys])
-    return max([0.0] + [abs(x - y) for x, y in zip(xs, ys)]) <= 1e-9 * scale
+    return max([0.0] + [abs(x - y) for x, y in zip(xs, ys)]) <= tol * scale
 
 
 def _signature(h, si, spec):
     kind, what = spec["kind"], spec["what"]
-    ops = [x for x in h[:si + 1] if x[0] == "op"]
+    ops = [x for x in h[:si + 1] if x[0] in ("op", "blocked")]
+    if what == "iface":
+        return ("C18:fmm-cache:backend-built-with-other-expansion_order-or-ncrit-than-the-parameter-object",
+                "the FMM backend used by an operator was constructed with another expansion order / ncrit than its parameter "
+                "object holds")
+    if spec.get("single"):
+        return ("C18:%s:single-precision-result-differs-from-double-beyond-single-accuracy" % kind,
+                "precision='single' does not agree with the double-precision result of the same parameters")
     if what == "mass" or (what == "strong" and kind not in ("KFmm",)):
         return ("C18:mass-matrix-memo:assembled-with-the-global-quadrature-order-of-its-first-use",
                 "space.mass_matrix() / strong_form() reuse a mass matrix assembled under an earlier global "
@@ -202,14 +270,17 @@ def _signature(h, si, spec):
         return ("C18:fmm-cache:interface-reused-across-a-change-of-quadrature.regular(key-omits-it)",
                 "an FMM %s assembled after a change of the global quadrature order reuses the cached interface built "
                 "before the change" % ("operator" if kind == "KFmm" else "potential"))
+    if kind == "Blocked":
+        return ("C18:blocked:weak-form-of-a-block-depends-on-history",
+                "a block of a BlockedOperator differs from the value a fresh process computes")
     return ("C18:%s:%s-depends-on-history" % (kind, what),
-            "%s of a %s operator differs from the value a fresh process computes" % (what, kind))
+            "%s of a %s operator differs from the value a fresh process computes for its parameter object" % (what, kind))
 
 
 def _both(ctx, strength):
     rnd = random.Random(ctx.seed)
-    n_rand, length = (12, 12) if strength == "thorough" else (3, 10)
-    hs = [list(h) for h in LEADS] + [gen_history(rnd, rnd.randint(6, length)) for _ in range(n_rand)]
+    n_rand, length = (12, 12) if strength == "thorough" else (2, 10)
+    hs = [list(h) for h in LEADS] + grid_histories() + [gen_history(rnd, rnd.randint(6, length)) for _ in range(n_rand)]
     specs, order = [], []
     for hi, h in enumerate(hs):
         for si, sp in sorted(annotate(h).items()):
@@ -245,7 +316,7 @@ def _verdicts(ctx, data):
         if o is None:
             ctx.problem("harness", "observation missing for history %d step %d" % (hi, si))
             continue
-        rows.append((hi, si, sp, _close(o, f), o, f))
+        rows.append((hi, si, sp, _close(o, f, 5e-6 if sp.get("single") else 1e-9), o, f))
         t = data["true"].get(k)
         if t is not None and "results" in t and not _close(t["results"][0], f):
             ctx.problem("harness", "the hand-reset 'fresh' emulation differs from a truly fresh interpreter", sp)
@@ -268,18 +339,23 @@ def correspond(ctx):
         h = data["histories"][hi]
         _, after = coq_history(h)
         st = h[si]
+        n = after[si]
         if st[0] == "mass":
-            qs = ["(%d, inr %d)" % (after[si], st[1])]
+            qs = ["(%d, 1, %d)" % (n, st[1])]
+        elif sp["what"] == "blocked":
+            qs = ["(%d, 0, %d)" % (n, _model_index(h, si, i)) for i in sp["part_index"]]
         elif st[0] == "strong":
-            sidx = [x for x in h[:si] if x[0] == "op"][st[1]][2]
-            qs = ["(%d, inl %d)" % (after[si], st[1]), "(%d, inr %d)" % (after[si], sidx)]
+            sidx = [x for x in h[:si] if x[0] in ("op", "blocked")][st[1]][2]
+            qs = ["(%d, 0, %d)" % (n, _model_index(h, si, st[1])), "(%d, 1, %d)" % (n, sidx)]
+        elif st[0] == "iface":
+            qs = ["(%d, 2, %d)" % (n, _model_index(h, si, st[1]))]
         else:
-            qs = ["(%d, inl %d)" % (after[si], st[1])]
+            qs = ["(%d, 0, %d)" % (n, _model_index(h, si, st[1]))]
         queries.append((hi, qs))
     body = "\n".join(["From Coq Require Import ZArith List.", "From BV Require Import State.Caches.",
                       "From BVgen Require Import CacheKeys.", "Import ListNotations."] + hdefs + [
         "Definition answers : list (list (option bool)) := [%s]." % ";\n ".join(
-            "map (answer cur h%d) [%s]" % (hi, "; ".join(qs)) for hi, qs in queries),
+            "map (answer2 cur h%d) [%s]" % (hi, "; ".join("(%s)%%nat" % q[1:-1] for q in qs)) for hi, qs in queries),
         "Eval vm_compute in answers.", ""])
     out = ctx.coq_eval("c18cases", body, timeout=600)
     ctx.corr["evaluations"] = len(rows)
